@@ -960,6 +960,16 @@ ABT_bool ABTI_sched_has_unit(ABTI_sched *p_sched)
             return ABT_TRUE;
         switch (p_pool->access) {
             case ABT_POOL_ACCESS_PRIV:
+#ifdef ABT_VERIF
+                if (ABTI_VERIF_ON()) {
+                    ABTI_VERIF_BEGIN();
+                    int32_t verif_nb = ABTD_atomic_acquire_load_int32(&p_pool->num_blocked);
+                    ABTI_VERIF_END(ABTI_VEV_NB_LOAD, p_pool, 0, verif_nb);
+                    if (verif_nb)
+                        return ABT_TRUE;
+                    break;
+                }
+#endif
                 if (ABTD_atomic_acquire_load_int32(&p_pool->num_blocked))
                     return ABT_TRUE;
                 break;
@@ -967,6 +977,21 @@ ABT_bool ABTI_sched_has_unit(ABTI_sched *p_sched)
             case ABT_POOL_ACCESS_MPSC:
             case ABT_POOL_ACCESS_SPMC:
             case ABT_POOL_ACCESS_MPMC:
+#ifdef ABT_VERIF
+                if (ABTI_VERIF_ON()) {
+                    ABTI_VERIF_BEGIN();
+                    int32_t verif_ns = ABTD_atomic_acquire_load_int32(&p_pool->num_scheds);
+                    ABTI_VERIF_END(ABTI_VEV_NSCHED_LOAD, p_pool, 0, verif_ns);
+                    if (verif_ns == 1) {
+                        ABTI_VERIF_BEGIN();
+                        int32_t verif_nb = ABTD_atomic_acquire_load_int32(&p_pool->num_blocked);
+                        ABTI_VERIF_END(ABTI_VEV_NB_LOAD, p_pool, 0, verif_nb);
+                        if (verif_nb)
+                            return ABT_TRUE;
+                    }
+                    break;
+                }
+#endif
                 if (ABTD_atomic_acquire_load_int32(&p_pool->num_scheds) == 1) {
                     if (ABTD_atomic_acquire_load_int32(&p_pool->num_blocked))
                         return ABT_TRUE;
